@@ -76,3 +76,22 @@ new = montepy.Cell()
 new.number = 1  # taken
 exc = raises(lambda: p.cells.append_renumber(new, 0))
 report(f"cells.append_renumber(cell, step=0) raises {exc} and leaves the cell unlinked", new._problem is not None)
+
+# 7. a rejected geometry edit that brings a new complement AND a divider of the wrong kind: the complement is
+#    added to cell.complements, then the second phase raises TypeError (fixed: kinds are checked in the first phase)
+from montepy.surfaces.half_space import UnitHalfSpace
+
+p = montepy.read_input(TEST)
+owner, a, b = p.cells[3], p.cells[1], p.cells[2]
+before = [c.number for c in owner.complements]
+exc = raises(lambda: setattr(owner, "geometry", ~a & UnitHalfSpace(b, True, False)))
+report(f"cell.geometry = ~a & <cell b as a surface divider> raises {exc} and leaves cell.complements as it was", [c.number for c in owner.complements] != before)
+
+# 8. (seeded change C14c, not in the tree) one extend() per container in HalfSpace._add_new_children_to_cell:
+#    a new complement plus a copy of a member surface that was never renumbered
+p = montepy.read_input(TEST)
+owner, a = p.cells[3], p.cells[1]
+clash = surface_builder(Input([f"{list(owner.surfaces)[0].number} PZ 77.25"], BlockType.SURFACE))
+before = [c.number for c in owner.complements]
+exc = raises(lambda: setattr(owner, "geometry", ~a & +clash))
+report(f"cell.geometry = ~a & +<copy of a member surface> raises {exc} and leaves cell.complements as it was", [c.number for c in owner.complements] != before)
